@@ -60,7 +60,11 @@ fn main() {
                 "C05" => "fault_enumeration",
                 _ => "exploration",
             };
+            let second = arg_val(&args, "--second-exe").map(|e| {
+                (PathBuf::from(e), arg_val(&args, "--second-profile").unwrap_or_else(|| "second".into()))
+            });
             let a = driver::CheckArgs {
+                second,
                 prop,
                 tier,
                 seed,
